@@ -349,8 +349,24 @@ func c16Run(c *mon.Ctx, unit int) {
 			})
 			st = model.Style{OneLine: true}
 		}
+		legal := false
+		if k%8 == 1 {
+			// the rule-free fragment (example values, optional / nullable marks, notes; empty
+			// containers annotated wherever they stand): every such schema is legal and has an AST
+			s = &model.Schema{Root: gen.Shape(r, gen.ShapeOpts{MaxDepth: r.Range(1, 4), MaxWidth: 4, OddKeys: r.Chance(1, 4)})}
+			s.Root.Walk(func(n *model.Node) {
+				if n.Note == "" && (len(n.Rules) > 0 || n.IsScalar() || (n.Kind == model.KArray && len(n.Items) == 0) || (n.Kind == model.KObject && len(n.Props) == 0)) && r.Chance(1, 3) {
+					n.Note = mon.Pick(r, []string{"first", "the id", "x y z", "note 2"})
+				}
+			})
+			st, legal = model.Style{}, true
+		}
 		sp := specOf(s, st)
 		got, o := c16Observe(sp)
+		if legal && !o.OK && o.Panic == "" {
+			c.Violate("ast-spelling", c16Case{sp, ""}, "an AST (as for the same schema in another spelling)", o.String(), "GetAST fails for a schema of the rule-free fragment")
+			continue
+		}
 		if o.Panic != "" {
 			c.Violate("panic", c16Case{sp, ""}, "no panic", o.String(), "GetAST panicked")
 			continue
